@@ -30,10 +30,10 @@ const (
 	evFinalize   = "Finalize"
 	evSync       = "SyncerProcess"
 	evTick       = "Tick"
-	evTickHdr    = "Tick!header"     // the finality header fetch fails once
-	evTickQuery  = "Tick!infoquery"  // GetLatestInfoUntilBlock fails once with a non-sentinel error
-	evTickCheck  = "Tick!isinjected" // IsGERInjected fails once
-	evTickInject = "Tick!inject"     // InjectGER fails once (nothing reaches L2)
+	evTickHdr    = "Tick+failing:header"     // the finality header fetch fails once
+	evTickQuery  = "Tick+failing:infoquery"  // GetLatestInfoUntilBlock fails once with a non-sentinel error
+	evTickCheck  = "Tick+failing:isinjected" // IsGERInjected fails once
+	evTickInject = "Tick+failing:inject"     // InjectGER fails once (nothing reaches L2)
 	evForeign    = "ForeignInject"   // somebody else injects the latest root at or below the finalized block
 	evForeignOld = "ForeignInject(retry-target)"
 	// ... the latest root at or below the OLDEST finalized block sampled since the last decision
@@ -237,7 +237,9 @@ func (f *l1client) HeaderByNumber(_ context.Context, number *big.Int) (*types.He
 	}
 	if n == w.fin {
 		// this block has the configured finality now and is the most recent such block
-		w.samples = append(w.samples, n)
+		if !containsU(w.samples, n) {
+			w.samples = append(w.samples, n)
+		}
 	}
 	w.calls = append(w.calls, fmt.Sprintf("header(%s)→%d", what, n))
 	return &types.Header{Number: new(big.Int).SetUint64(n)}, nil
